@@ -554,6 +554,7 @@ func genRich(r *hx.Rand, idx int, seed int64) *Scenario {
 	contact := g.contact()
 	trig := g.trigger(contact)
 	trigJSON, _ := json.Marshal(trig)
+	viaBuilder := r.Chance(2, 3)
 	nres := r.Intn(6)
 	resJSON := make([]json.RawMessage, nres)
 	for i := range resJSON {
@@ -582,6 +583,11 @@ func genRich(r *hx.Rand, idx int, seed int64) *Scenario {
 			return serviceEngine(b)
 		},
 		MakeTrigger: func(sa flows.SessionAssets) (flows.Trigger, error) {
+			if viaBuilder {
+				if t, err := buildTrigger(sa, trig); t != nil || err != nil {
+					return t, err
+				}
+			}
 			return triggers.ReadTrigger(sa, trigJSON, assets.IgnoreMissing)
 		},
 		NumResumes: nres,
@@ -592,7 +598,7 @@ func genRich(r *hx.Rand, idx int, seed int64) *Scenario {
 		Exempt:    g.used,
 		Batch:     trig["batch"] == true,
 		Input: map[string]any{"stream": "rich", "assets": json.RawMessage(assetsJSON), "trigger": json.RawMessage(trigJSON), "resumes": resJSON,
-			"small_limits": small},
+			"small_limits": small, "trigger_via_builder": viaBuilder},
 		Tags: tags,
 	}
 	return sc
@@ -763,6 +769,7 @@ func genFocused(r *hx.Rand, idx int, seed int64) *Scenario {
 	contact := g.contact()
 	trig := g.trigger(contact)
 	trigJSON, _ := json.Marshal(trig)
+	viaBuilder := r.Chance(2, 3)
 	nres := r.Range(2, 6)
 	resJSON := make([]json.RawMessage, nres)
 	for i := range resJSON {
@@ -788,6 +795,11 @@ func genFocused(r *hx.Rand, idx int, seed int64) *Scenario {
 		},
 		NewEngine: func() flows.Engine { return serviceEngine(engine.NewBuilder()) },
 		MakeTrigger: func(sa flows.SessionAssets) (flows.Trigger, error) {
+			if viaBuilder {
+				if t, err := buildTrigger(sa, trig); t != nil || err != nil {
+					return t, err
+				}
+			}
 			return triggers.ReadTrigger(sa, trigJSON, assets.IgnoreMissing)
 		},
 		NumResumes: nres,
@@ -797,7 +809,8 @@ func genFocused(r *hx.Rand, idx int, seed int64) *Scenario {
 		Requestor: urlRequestor{},
 		Exempt:    g.used,
 		Batch:     trig["batch"] == true,
-		Input:     map[string]any{"stream": "rich-focused", "assets": json.RawMessage(assetsJSON), "trigger": json.RawMessage(trigJSON), "resumes": resJSON},
-		Tags:      tags,
+		Input: map[string]any{"stream": "rich-focused", "assets": json.RawMessage(assetsJSON), "trigger": json.RawMessage(trigJSON), "resumes": resJSON,
+			"trigger_via_builder": viaBuilder},
+		Tags: tags,
 	}
 }
